@@ -9,7 +9,7 @@ ids="$*"
 W=$(mktemp -d /tmp/seedwt.XXXXXX); rmdir "$W"
 git -C /repo worktree add -q "$W" HEAD || exit 3
 export CARGO_NET_OFFLINE=true
-export CARGO_TARGET_DIR=/tmp/seedeval-target
+export CARGO_TARGET_DIR=${CARGO_TARGET_DIR:-/tmp/seedeval-target}
 res="$dir/EVAL.txt"; : > "$res"
 cp "$dir/seed_demo.rs" "$W/tests/seed_demo.rs"
 ( cd "$W" && cargo test --offline --test seed_demo > "$W/demo_clean.log" 2>&1 ); rc_clean=$?
